@@ -851,6 +851,36 @@ def _mm_task(arg):
     return out
 
 
+MM_DEFS = """
+Fixpoint sorted_ins (a : N) (l : list N) : list N :=
+  match l with [] => [a] | b :: r => if N.leb a b then a :: l else b :: sorted_ins a r end.
+Definition sortN (l : list N) := fold_right sorted_ins [] l.
+Fixpoint uniq (l : list N) : list N :=
+  match l with a :: ((b :: _) as r) => if N.eqb a b then uniq r else a :: uniq r | _ => l end.
+(* the proved merge loop of Model/C05_Rename.v on the start set and candidate sets captured
+   from the running find_references *)
+Definition mm_predict (c : list N * list (list N)) : list N := uniq (sortN (find_refs (fst c) (snd c))).
+"""
+
+
+def _closure(found0, cands):
+    """what a transitively closed merge would return (connected component of the start set)"""
+    found = set(found0)
+    todo = [set(c) for c in cands]
+    changed = True
+    while changed:
+        changed = False
+        rest = []
+        for c in todo:
+            if c & found:
+                found |= c
+                changed = True
+            else:
+                rest.append(c)
+        todo = rest
+    return found
+
+
 def run_mm(ctx):
     base = os.path.join(ctx.tmp, 'mm')
     os.makedirs(base, exist_ok=True)
@@ -861,22 +891,69 @@ def run_mm(ctx):
         projs.append(gen_project(ctx.rng, d))
     for _ in range(ctx.n(int(os.environ.get('C05_MM', 50)), 1500)):
         projs.append(gen_project(ctx.rng))
+    import time
+    t0 = time.time()
     results = common.pmap(_mm_task, [(base, i, P) for i, P in enumerate(projs)], chunksize=2)
-    stats = dict(projects=len(projs), tokens=0, renames=0, with_alternatives=0, flags={}, import_errors=0, sites_read=0)
+    t1 = time.time()
+    stats = dict(projects=len(projs), tokens=0, renames=0, with_alternatives=0, flags={}, import_errors=0, sites_read=0,
+                 merge_loop_cases=0, merge_loop_predicted=0, not_transitive=0)
+    # --- the merge loop on the captured inputs (model) vs what find_references returned
+    cases, cmeta = [], []
+    for ri, r in enumerate(results):
+        if not (isinstance(r['trace'], list) and all(isinstance(m, list) and len(m) == 3 for m in r['trace'])):
+            raise RuntimeError('multi-module driver failed: %r' % (r['trace'],))
+        for ti, t in enumerate(r['toks']):
+            if 'cap' not in t:
+                continue
+            num = {}
+            n_of = lambda k: num.setdefault(tuple(k), len(num) + 1)
+            f0 = [n_of(k) for k in t['cap']['found0']]
+            cs = [[n_of(k) for k in c] for c in t['cap']['cands']]
+            obs = sorted(n_of(k) for k in t['refs'])
+            cases.append('(%s, %s)' % (g_list(f0, g_N, 'N'), g_list(cs, lambda c: g_list(c, g_N, 'N'), 'list N')))
+            cmeta.append((ri, ti, obs, num))
+    pred, err = common.coq_eval_N_lists(IMPORTS, 'mm_predict', cases, shard=300, defs=MM_DEFS, timeout=1200)
+    if err:
+        raise RuntimeError('coq evaluation failed (merge loop): ' + err)
+    stats['seconds'] = dict(projects=round(t1 - t0, 1), coq=round(time.time() - t1, 1))
+    n_obl = 0
+    for (ri, ti, obs, num), pl in zip(cmeta, pred):
+        t = results[ri]['toks'][ti]
+        inv = {v: k for k, v in num.items()}
+        # names outside the project files (none in these projects) would not be reported as positions
+        pl = [x for x in pl if inv[x][0] not in ('obj', None)]
+        t['predicted'] = pl == obs
+        t['model'] = [list(inv[x]) for x in pl]
+        t['closed'] = sorted(k for k in _closure([tuple(k) for k in t['cap']['found0']], [[tuple(k) for k in c] for c in t['cap']['cands']])
+                             if k[0] not in ('obj', None))
+        stats['merge_loop_cases'] += 1
+        stats['merge_loop_predicted'] += t['predicted']
+        ctx.count('mm-merge-loop', (json.dumps(results[ri]['files'], sort_keys=True), tuple(t['tok'])), nontrivial=len(t['cap']['cands']) >= 2)
     for r in results:
         fl = r['flags']
-        reason = fl[0] if fl else 'none'
         for f in fl:
             stats['flags'][f] = stats['flags'].get(f, 0) + 1
         stats['with_alternatives'] += any(('try:' in c or 'if flag' in c) for c in r['files'].values())
-        stats['import_errors'] += sum(1 for m in r['trace'] if isinstance(m, list) and len(m) == 3 and m[1] != 'ok')
-        stats['sites_read'] += sum(len(m[2]) for m in r['trace'] if isinstance(m, list) and len(m) == 3)
+        stats['import_errors'] += sum(1 for m in r['trace'] if m[1] != 'ok')
+        stats['sites_read'] += sum(len(m[2]) for m in r['trace'])
         where = dict(files=r['files'], name=r['name'])
-        if not (isinstance(r['trace'], list) and all(isinstance(m, list) and len(m) == 3 for m in r['trace'])):
-            raise RuntimeError('multi-module driver failed: %r' % (r['trace'],))
-        sets = {}
+
+        def reason_of(t):
+            """model-computed class of a deviating answer: it must be exactly what the merge loop
+            (Coq) returns on the captured inputs; then either a transitively closed merge of the
+            same inputs gives the expected component (the loop's non-transitivity is the cause),
+            or the generator marked the project (alternatives without a joining read / decided branch)"""
+            if not t.get('predicted'):
+                return 'not-the-merge-loop-answer'
+            if [list(k) for k in t['closed']] == [list(e) for e in t['expected']]:
+                return 'merge-not-transitive'
+            return fl[0] if fl else 'none'
+        prio = lambda rs: (sorted(rs, key=lambda x: (x != 'not-the-merge-loop-answer', x != 'none', x)) or ['none'])[0]
+        sets, reasons = {}, {}
+        by_tok = {}
         for t in r['toks']:
             stats['tokens'] += 1
+            by_tok[tuple(t['tok'])] = t
             if 'exc' in t:
                 ctx.deviation(dict(stream='mm', exc=t['exc']['exc'], site=t['exc']['site']), dict(error=t['exc'], token=t['tok'], **where),
                               'get_references raised in a multi-module project')
@@ -885,22 +962,32 @@ def run_mm(ctx):
             exp = [list(e) for e in t['expected']]
             got = [list(e) for e in t['refs']]
             if got != exp:
-                ctx.deviation(dict(stream='mm', cls='refs-differ-from-import-component', reason=reason),
-                              dict(token=t['tok'], reported=got, expected=exp, **where),
+                rs = reason_of(t)
+                stats['not_transitive'] += rs == 'merge-not-transitive'
+                reasons.setdefault(json.dumps(exp), []).append(rs)
+                ctx.deviation(dict(stream='mm', cls='refs-differ-from-import-component', reason=rs),
+                              dict(token=t['tok'], reported=got, expected=exp, merge_loop_model=t.get('model'), **where),
                               'get_references from %r reports %r; the occurrences linked to it by scoping and imports are %r' % (t['tok'], got, exp))
+            elif not t.get('predicted'):
+                n_obl += 1
+                if n_obl <= 4:
+                    ctx.violation('obligation', dict(what='correspondence merge_loop (Model/C05_Rename.v) on the start set and candidate sets captured from '
+                                                          'find_references: model and implementation differ',
+                                                     input=dict(token=t['tok'], reported=got, captured=t['cap'], **where), model=t.get('model')), nofail=True)
             sets.setdefault(json.dumps(exp), set()).add(json.dumps(got))
         for exp, gots in sets.items():
             if len(gots) > 1:
-                ctx.deviation(dict(stream='mm', cls='not-a-partition', reason=reason),
+                ctx.deviation(dict(stream='mm', cls='not-a-partition', reason=prio(reasons.get(exp, []))),
                               dict(component=json.loads(exp), answers=[json.loads(g) for g in sorted(gots)], **where),
                               'get_references gives %d different answers depending on the member asked' % len(gots))
         for dm in r['denotes_missing']:
-            ctx.deviation(dict(stream='mm', cls='runtime-reader-not-a-reference', reason=reason), dict(**dm, **where),
+            ctx.deviation(dict(stream='mm', cls='runtime-reader-not-a-reference', reason=reason_of(by_tok[tuple(dm['definition'])])), dict(**dm, **where),
                           'the use at %r read the value of the definition at %r at run time but is not among its references' % (dm['site'], dm['definition']))
         for ren in r['renames']:
             stats['renames'] += 1
             ctx.count('mm-rename', (json.dumps(r['files'], sort_keys=True), tuple(ren['tok'])), nontrivial=len(ren['refs']) >= 2)
             w = dict(token=ren['tok'], references=ren['refs'], **where)
+            rs = reason_of(by_tok[tuple(ren['tok'])])
             if 'exc' in ren:
                 ctx.deviation(dict(stream='mm', exc=ren['exc']['exc'], site=ren['exc']['site']), dict(error=ren['exc'], **w), 'rename raised')
                 continue
@@ -911,13 +998,13 @@ def run_mm(ctx):
                 ctx.deviation(dict(stream='mm', cls='rename-not-exactly-the-references'), dict(new=ren['new'], **w),
                               'rename changed something other than exactly the reported references')
             if not ren['trace_equal']:
-                ctx.deviation(dict(stream='mm', cls='behaviour-changed', reason=reason), dict(new=ren['new'], old_trace=r['trace'], new_trace=ren['trace_new'], **w),
+                ctx.deviation(dict(stream='mm', cls='behaviour-changed', reason=rs), dict(new=ren['new'], old_trace=r['trace'], new_trace=ren['trace_new'], **w),
                               'the renamed project does not behave like the original')
             if 'back_exc' in ren:
-                ctx.deviation(dict(stream='mm', exc=ren['back_exc']['exc'], site=ren['back_exc']['site'], reason=reason), dict(error=ren['back_exc'], **w),
+                ctx.deviation(dict(stream='mm', exc=ren['back_exc']['exc'], site=ren['back_exc']['site'], reason=rs), dict(error=ren['back_exc'], **w),
                               'renaming back raised')
             elif not ren['back_equal']:
-                ctx.deviation(dict(stream='mm', cls='roundtrip', reason=reason), dict(new=ren['new'], back=ren.get('back'), **w),
+                ctx.deviation(dict(stream='mm', cls='roundtrip', reason=rs), dict(new=ren['new'], back=ren.get('back'), **w),
                               'renaming to a fresh name and back does not restore the original files')
     ctx.stat('multi_module', stats)
     for r in results[:1]:
